@@ -5,7 +5,7 @@ from ..framework import rule
 from ..astutil import dotted, call_name, call_recv, norm, walk_local, unparse
 from ..consteval import ceval, UNKNOWN, MAYBE
 from .. import q
-from .common import assigned_value, kw, arg
+from .common import assigned_value, kw, arg, enclosing_for, new_cells_validates_name
 
 META = {
     "explanation": (
@@ -92,9 +92,24 @@ def r1(ctx, R):
         R.bad(nc, ca_[0] if ca_ else nc.node, "the clash test sees name=None while CellsImpl.__init__ names the cells after its "
                                               "formula: new_cells(formula=foo) is accepted although foo is a child space or reference",
               stmt="resolve formula name before _can_add")
+    R.inst("new_cells: an auto-generated name is drawn until the clash test accepts it (sub spaces included)")
+    gn = [c for c in q.calls(nc, name="get_next") if (call_recv(c) or "").endswith("cellsnamer")]
+    okl = False
+    for c in gn:
+        lp = enclosing_for(nc, c)
+        if isinstance(lp, ast.While) and isinstance(lp.test, ast.Constant) and lp.test.value is True:
+            brk = [b for b in ast.walk(lp) if isinstance(b, ast.Break)]
+            if brk and any(("self._can_add(space, name, CellsImpl)", "T") in q.guards_of(nc, b) for b in brk) \
+                    and any(t in ("is_valid_name(name)",) and l == "F" for t, l in q.guards_of(nc, lp)):
+                okl = True
+    if not okl:
+        R.bad(nc, nc.node, "an auto-generated cells name is tested against the space's own namespace only: a sub space that "
+                           "has a child space or reference of that name gets one name for two kinds of object",
+              stmt="auto-name until _can_add")
     R.inst("auto-generated names avoid the whole namespace (cells, references and child spaces)")
     n_auto = 0
-    for spec in ("CellsImpl.__init__", "SpaceUpdater.new_space"):
+    for spec in (("SpaceUpdater.new_space", "SpaceManager.new_cells") if new_cells_validates_name(ctx)
+                 else ("CellsImpl.__init__", "SpaceUpdater.new_space", "SpaceManager.new_cells")):
         f_ = ctx.func(spec)
         for c in q.calls(f_, name="get_next"):
             if (call_recv(c) or "").endswith(("cellsnamer", "spacenamer")):
@@ -103,7 +118,7 @@ def r1(ctx, R):
                 if a0 not in ("space.namespace", "parent.namespace"):
                     R.bad(f_, c, "auto-namer is given `%s`: an auto-generated name can equal an existing reference or child "
                                  "space (or cells) of the same space" % a0)
-    R.need(n_auto >= 3, "expected >=3 auto-naming sites, found %d" % n_auto)
+    R.need(n_auto >= 2, "expected >=2 auto-naming sites, found %d" % n_auto)
     # _can_add: decision structure
     ca = ctx.func("SharedSpaceOperations._can_add")
     R.inst("_can_add: model -> name not visible; name visible in the parent -> only a non-member; else every sub agrees in kind")
@@ -158,17 +173,21 @@ def r1(ctx, R):
             R.bad(nr, rs[0], "a cells or space of that name in a sub is not refused")
         if any(isinstance(x, ast.Break) for x in ast.walk(lps[0])):
             R.bad(nr, lps[0], "the clash test stops at the first sub space")
-        # the space itself is among the spaces tested (UserSpaceImpl.set_attr routes a name that is both a cells
-        # of the space and a model-level reference here)
         itc = lps[0].iter
-        sk = kw(itc, "skip_self") or (itc.args[2] if len(itc.args) > 2 else None)
-        own = [r_ for r_ in q.raises(nr) if any(t in ("name in space.namespace", "name in space.cells") and l == "T"
-                                                 for t, l in q.guards_of(nr, r_))]
-        if sk is not None and not (isinstance(sk, ast.Constant) and not sk.value) and not own:
-            R.bad(nr, itc, "the clash test skips the space itself: a name that is a cells of the space and a model-level "
-                           "reference becomes an own reference next to the cells")
         if [norm(a) for a in itc.args[:2]] != ["space", "name"]:
             R.bad(nr, itc, "the clash test does not look for the new name below the edited space")
+    # the self-check demands of the value registry exactly what the registration rule puts there
+    cs_ = ctx.func("ModelImpl._check_sanity")
+    nr_ = ctx.func("ReferenceManager.new_ref")
+    R.inst("ModelImpl._check_sanity and ReferenceManager.new_ref agree: only non-Interface values are registered")
+    reg = q.calls(nr_, name="setdefault", recv_endswith="_valid_to_refs")
+    reg_cond = any(t == "isinstance(value, Interface)" and l == "F" for c in reg for t, l in q.guards_of(nr_, c))
+    asserts = [a for a in walk_local(cs_.node) if isinstance(a, ast.Assert) and "_valid_to_refs" in norm(a.test)]
+    for a in asserts:
+        g = q.guards_of(cs_, a)
+        if reg_cond and not any(t in ("isinstance(r.interface, Interface)",) and l == "F" for t, l in g):
+            R.bad(cs_, a, "the self-check requires every model-level reference in the value registry, but values that are "
+                          "modelx objects are never registered: m.x = <space> makes _check_sanity fail")
     # ModelImpl.set_attr
     ms = ctx.func("ModelImpl.set_attr")
     R.inst("ModelImpl.set_attr refuses the name of a space")
@@ -180,9 +199,13 @@ def r1(ctx, R):
     for c in q.calls(us, name="new_ref"):
         g = q.guards_of(us, c)
         ok = ("name in self.namespace", "F") in g or (("name in self.refs", "T") in g and ("name in self.own_refs", "F") in g
-                                                      and ("self.refs[name].parent is self.model", "T") in g)
+                                                      and ("self.refs[name].parent is self.model", "T") in g
+                                                      and ("name in self.cells", "F") in g
+                                                      and any(t in ("name in self.named_spaces", "name in self.spaces",
+                                                                    "name in self.all_spaces") and l == "F" for t, l in g))
         if not ok:
-            R.bad(us, c, "a reference can be created over an existing cells/space name")
+            R.bad(us, c, "a reference can be created over an existing cells/space name: a model-level reference of the same "
+                         "name hides the cells / child space from the test (guards: %s)" % sorted(g))
     # add_bases / new_space: member-name conflict over the linearisation
     ck = ctx.func("SpaceUpdater._check_name_conflict")
     rs = q.raises(ck, "NameError")
@@ -295,14 +318,15 @@ def r2(ctx, R):
     if mt != ["self._named_spaces", "self._global_refs"]:
         R.bad(mi, mi.node, "model namespace is not (spaces, global refs): %s" % mt, stmt="ImplChainMap('namespace')")
     mg = ctx.func("ModelImpl.get_attr")
-    order = [norm(n.ast) for n in sorted((n for n in mg.cfg.nodes if n.kind == "test"), key=lambda n: n.line)]
+    order = [norm(n.ast) for n in sorted((n for n in mg.cfg.nodes if n.kind == "test"), key=lambda n: n.line)
+             if isinstance(n.ast, ast.Compare)]
     if order != ["name in self.spaces", "name in self.global_refs"]:
         R.bad(mg, mg.node, "ModelImpl.get_attr does not read the namespace maps in order: %s" % order, stmt="get_attr order")
     else:
         for r_ in q.returns(mg):
             g = q.guards_of(mg, r_)
             want = "self.spaces[name].interface" if ("name in self.spaces", "T") in g else "self.global_refs[name].interface"
-            if norm(r_.value) != want:
+            if q.anorm(mg, r_.value) != want:
                 R.bad(mg, r_, "get_attr returns an object from another container")
     ps = ctx.func("BaseParentImpl.spaces")
     R.inst("spaces / named_spaces are the same container (_named_spaces)")
